@@ -98,6 +98,7 @@ SHEETS = {
               'transform:translate(-0.5px,0.5px) rotate(0.25turn);z-index:-1;color:hsl(120,100%,50%)!important}'
               '@media screen and (min-width:0.5em) and (max-width:10.5em),print{b[c="d e"]:not(.f)>g{left:+.5px;top:-.5em}}',
     'mlcomment': 'a{/*one\ntwo*/color:red}@media print{/*x\n  y*/b{left:0}}',
+    'spec': 'e{left:0}e.f{left:1px}@media print{g{top:0}g.h{top:1px}}e.f .g{left:2px}',
     'mix': '@IMPORT "i.css";@namespace u "http://u";@namespace n "http://n";@variables{V:red;w:0.5px}/*c0*/'
            '@MEDIA print{u|a{c\\olor:red;color:1px !IMPORTANT;left:var(w);left:nope;/*c1*/}@x y;b{}}'
            'c{color:var(V);xx:0.5;background-color:#aabbcc;@y z;top:var(none)}d{/*c2*/}@page{margin:0.5cm;@top-left{color:#AABBCC;/*c3*/}}',
@@ -216,6 +217,7 @@ class Sheet:
                 raise AssertionError('comment-free twin has another number of declarations')
             for n, v in zip(nodes, tv):
                 n['valid'] = v
+            self.alone0 = [r.cssText for r in self.dom.cssRules]
             self.d0 = self.dom.cssText
             t0 = self.d0.decode('utf-8')
             self.tok0 = M.tokens(t0)
@@ -458,12 +460,17 @@ def evaluate(sh, preset, devs, via='global', res=None, rules=True):
         with guard.watchdog(WATCHDOG):
             cssutils.ser.prefs.useDefaults()
             now = {k: getattr(cssutils.ser.prefs, k, '<unset>') for k in M.DEFAULTS}
+            # (first the rules on their own - nothing of the last sheet serialisation may shine through - then the sheet)
+            alone1 = [r.cssText for r in sh.dom.cssRules]
             d1 = sh.dom.cssText
         if now != M.DEFAULTS:
             bad = sorted(k for k in now if now[k] != M.DEFAULTS[k])
             fails.append(('C06.restore', 'not-the-documented-default|' + ','.join(bad), {k: M.DEFAULTS[k] for k in bad}, {k: now[k] for k in bad}))
         elif d1 != sh.d0:
             fails.append(('C06.restore', 'default-output-differs', sh.d0.decode('utf-8', 'replace')[:300], d1.decode('utf-8', 'replace')[:300]))
+        elif alone1 != sh.alone0:
+            i = next(k for k, (x, y) in enumerate(zip(alone1, sh.alone0)) if x != y)
+            fails.append(('C06.restore', 'default-output-of-a-rule-alone-differs', sh.alone0[i][:300], alone1[i][:300]))
     except guard.Timeout:
         fails.append(('C06.restore', 'timeout', 'default bytes', 'timeout'))
     except Exception as e:
